@@ -162,7 +162,30 @@ def run_single(seq, law):
     det = FN.FKMNonlinearDetector(recorder=rec, notch_approximation_law=law)
     loads = np.array(seq, dtype=float)
     det.process_hcm_first(loads)
+    # what a caller sees who asks between the passes (the assessment keeps a deep copy of the detector at this moment)
+    import copy
+    snap = copy.deepcopy(det)
+    det.between_passes = (np.asarray(det.strain_values_first_run, dtype=float).tolist(), np.asarray(det.strain_values_second_run, dtype=float).tolist(),
+                          np.asarray(snap.strain_values_first_run, dtype=float).tolist(), np.asarray(snap.strain_values_second_run, dtype=float).tolist())
     det.process_hcm_second(loads)
+    return rec.collective, det
+
+
+def _two_chunks(seq):
+    """Two DIFFERENT chunks for two process() calls: the sequence ending in a plateau (last sample repeated), then the
+    sequence backwards - the plateau becomes a turning point only when the second chunk arrives."""
+    seq = [float(v) for v in seq]
+    return seq + seq[-1:], seq[::-1]
+
+
+def run_single_two_chunks(seq, law):
+    import pylife.stress.rainflow.fkm_nonlinear as FN
+    import pylife.stress.rainflow.recorders as RFR
+    rec = RFR.FKMNonlinearRecorder()
+    det = FN.FKMNonlinearDetector(recorder=rec, notch_approximation_law=law)
+    a, b = _two_chunks(seq)
+    det.process(np.array(a, dtype=float))
+    det.process(np.array(b, dtype=float))
     return rec.collective, det
 
 
@@ -191,6 +214,21 @@ def run_multi(seq, ratios, kind, pidx, layout="asc"):
         full.index.names = ["load_step", "node_id"]
         keep = ~full.index.get_level_values("load_step").isin([0, 2, len(long) - 1])
         signal = full[keep]
+    elif layout == "two-chunks":
+        a, b = _two_chunks(seq)
+        parts = []
+        for start, chunk in ((0, a), (len(a), b)):
+            df = pd.DataFrame({node: r * np.array(chunk) for node, r in zip(nodes, ratios)})
+            df["load_step"] = range(start, start + len(chunk))
+            sig = df.set_index("load_step").stack()
+            sig.index.names = ["load_step", "node_id"]
+            parts.append(sig)
+        law = _law(kind, pidx, pd.concat(parts).abs().groupby("node_id", sort=False).max())
+        rec = RFR.FKMNonlinearRecorder()
+        det = FN.FKMNonlinearDetector(recorder=rec, notch_approximation_law=law)
+        det.process(parts[0])
+        det.process(parts[1])
+        return rec.collective
     else:
         df = pd.DataFrame({node: r * seq for node, r in zip(nodes, ratios)})
         df["load_step"] = _step_labels(len(seq), layout)
@@ -244,6 +282,13 @@ def compare_with_reference(seq, kind, pidx):
             if got.shape != (len(exp),) or not np.allclose(got, np.array(exp, dtype=float), rtol=RTOL, atol=ATOL):
                 viol.append(("C05/%s/%s" % (name, cls), {"law": cfg, "got": got.tolist(), "expected": list(exp)}))
                 break
+    if not viol:
+        first = np.asarray(det.strain_values_first_run, dtype=float).tolist()
+        b1, b2, s1, s2 = det.between_passes
+        if b1 != first or b2 or s1 != first or s2:
+            viol.append(("C05/strain_values_first_run/asked-between-the-passes/%s" % cls,
+                         {"law": cfg, "after_both_passes": first, "asked_after_pass_1": b1, "second_run_asked_after_pass_1": b2,
+                          "deep_copy_taken_after_pass_1": [s1, s2]}))
     m3 = sum(1 for r in rows if not r["is_closed_hysteresis"])
     return viol, {"rows": len(rows), "m3": m3, "cls": cls, "frame": c}
 
@@ -271,7 +316,7 @@ def compare_mirror(seq, kind, pidx):
     return []
 
 
-BATCH_LAYOUTS = ("asc", "desc", "shuffled", "sliced", "nodes")
+BATCH_LAYOUTS = ("asc", "desc", "shuffled", "sliced", "nodes", "two-chunks")
 
 
 def compare_batch(seq, ratios, kind="binned-neuber", pidx=0, layout=None):
@@ -281,7 +326,8 @@ def compare_batch(seq, ratios, kind="binned-neuber", pidx=0, layout=None):
         for lay in (BATCH_LAYOUTS if len(ratios) == 2 else ("asc", "nodes")):
             out += compare_batch(seq, ratios, kind, pidx, lay)
         return out
-    sfx = "" if layout == "asc" else "/node-ids-not-ascending" if layout == "nodes" else "/load_step-labels-" + layout
+    sfx = "" if layout == "asc" else "/node-ids-not-ascending" if layout == "nodes" else \
+        "/two-different-chunks" if layout == "two-chunks" else "/load_step-labels-" + layout
     try:
         cm = run_multi(seq, ratios, kind, pidx, layout)
     except Exception as e:  # noqa: BLE001
@@ -290,7 +336,12 @@ def compare_batch(seq, ratios, kind="binned-neuber", pidx=0, layout=None):
     for k, r in enumerate(ratios):
         sseq = [r * v for v in seq]
         law = _law(kind, pidx, float(np.abs(sseq).max()))
-        cs, _ = run_single(sseq, law)
+        try:
+            cs, _ = run_single_two_chunks(sseq, law) if layout == "two-chunks" else run_single(sseq, law)
+        except Exception as e:  # noqa: BLE001   (the single-point run of this layout fails by itself: nothing to compare with)
+            if layout == "two-chunks":
+                return []
+            raise e
         part = cm.xs(k, level="assessment_point_index") if len(cm) else cm
         if len(part) != len(cs):
             viol.append(("C05/batch%s/number-of-hystereses" % sfx, {"point": k, "ratio": r, "batch": len(part), "alone": len(cs), "layout": layout}))
